@@ -44,6 +44,8 @@ const KRKB: &str = "8/8/8/8/8/k7/8/K6R b - - 0 1"; // 3 root moves
 const KQKC: &str = "8/8/8/8/3b4/8/7k/K7 w - - 0 1"; // white in check, 2 root moves
 const EPB: &str = "4k3/8/8/2PpP3/8/8/8/4K3 w - d6 0 1"; // 9 root moves
 const KRKW: &str = "8/8/8/8/8/k7/8/K6R w - - 0 1"; // many root moves
+const KQKB: &str = "6q1/8/8/8/8/K7/5k2/8 b - - 0 1"; // K+Q v K, many root tasks, tempo transpositions
+const KQKW: &str = "7k/8/5K2/8/8/8/8/6Q1 w - - 0 1";
 const KPPKP: &str = "7k/7p/8/8/8/8/6PP/7K w - - 0 1"; // 5 root moves
 
 pub const CONFIGS: &[Config] = &[
@@ -59,6 +61,8 @@ pub const CONFIGS: &[Config] = &[
     cfg("ep-9tasks-d3", EPB, 3, false, 0, 2, false, false),
     cfg("krkw-d3", KRKW, 3, false, 0, 1, false, false),
     cfg("incheck-d3", KQKC, 3, false, 1, 9, true, false),
+    cfg("kqk-b-d5-orders", KQKB, 5, false, 0, 0, false, false),
+    cfg("kqk-w-d4-orders", KQKW, 4, false, 0, 0, false, false),
     // thorough
     cfg("kpk-2tasks-d4-all-p2", KPK2, 4, false, 2, 9, true, true),
     cfg("kpk-2tasks-d5-all", KPK2, 5, false, 1, 9, true, true),
@@ -78,6 +82,7 @@ struct Job {
     prefix: Vec<usize>,
     pre_used: u32,
     dev_used: u32,
+    policy: OrderPolicy,
 }
 
 struct Explorer {
@@ -98,6 +103,10 @@ fn make_explorer(ntasks: usize) -> Explorer {
 
 /// one controlled execution: returns (record, outcome)
 fn execute(ex: &Explorer, c: &Config, pos: &Pos, names: &[String], prefix: &[usize], shared: &FxHashSet<FullKey>) -> Result<(ExecRecord, Outcome), String> {
+    execute_p(ex, c, pos, names, prefix, shared, OrderPolicy::First)
+}
+
+fn execute_p(ex: &Explorer, c: &Config, pos: &Pos, names: &[String], prefix: &[usize], shared: &FxHashSet<FullKey>, policy: OrderPolicy) -> Result<(ExecRecord, Outcome), String> {
     let mut ctx = SearchContext::new(c.depth);
     let step_timeout = Duration::from_secs(60);
     if c.warm {
@@ -126,7 +135,7 @@ fn execute(ex: &Explorer, c: &Config, pos: &Pos, names: &[String], prefix: &[usi
     };
     let (res, rec) = std::thread::scope(|sc| {
         let h = sc.spawn(|| ex.pool.install(|| run_search(&mut b, &mut ctx, &mut MoveGenerator::new())));
-        let rec = control(&ex.sched, prefix, &mode, step_timeout);
+        let rec = control_with_policy(&ex.sched, prefix, &mode, step_timeout, policy);
         if let Ok(r) = &rec {
             if r.hang.is_some() {
                 // cannot join a hung search: the caller reports and the process ends
@@ -150,7 +159,7 @@ struct ConfigResult {
     executions: u64,
     choice_points_max: usize,
     steps_total: u64,
-    outcomes: BTreeMap<String, Vec<usize>>,
+    outcomes: BTreeMap<String, (Vec<usize>, OrderPolicy)>,
     cache_digests: BTreeSet<u64>,
     traces: BTreeSet<u64>,
     shared_keys: usize,
@@ -158,6 +167,24 @@ struct ConfigResult {
     cross_task_hits: u64,
     max_pre: u32,
     rounds: u32,
+}
+
+fn policy_name(p: OrderPolicy) -> String {
+    match p {
+        OrderPolicy::First => "first".into(),
+        OrderPolicy::Last => "last".into(),
+        OrderPolicy::Rotate(k) => format!("rotate:{}", k),
+    }
+}
+
+fn policy_of(s: &str) -> OrderPolicy {
+    if s == "last" {
+        OrderPolicy::Last
+    } else if let Some(k) = s.strip_prefix("rotate:") {
+        OrderPolicy::Rotate(k.parse().unwrap_or(0))
+    } else {
+        OrderPolicy::First
+    }
 }
 
 fn outcome_key(o: &Outcome) -> String {
@@ -187,7 +214,13 @@ fn explore_config(c: &Config, workers: usize, sink: &Sink, a: &Args, total_execs
     loop {
         res.rounds += 1;
         let round_shared = shared.clone();
-        let queue: Mutex<Vec<Job>> = Mutex::new(vec![Job { prefix: vec![], pre_used: 0, dev_used: 0 }]);
+        // the bounded exploration starts from the index order, from the reverse order and from
+        // every rotation of the index order (each a different default at task-completion points)
+        let mut initial = vec![Job { prefix: vec![], pre_used: 0, dev_used: 0, policy: OrderPolicy::First }, Job { prefix: vec![], pre_used: 0, dev_used: 0, policy: OrderPolicy::Last }];
+        for k in 1..n {
+            initial.push(Job { prefix: vec![], pre_used: 0, dev_used: 0, policy: OrderPolicy::Rotate(k) });
+        }
+        let queue: Mutex<Vec<Job>> = Mutex::new(initial);
         let inflight = AtomicU64::new(0);
         let new_shared: Mutex<FxHashSet<FullKey>> = Mutex::new(FxHashSet::default());
         let results: Mutex<&mut ConfigResult> = Mutex::new(&mut res);
@@ -218,7 +251,7 @@ fn explore_config(c: &Config, workers: usize, sink: &Sink, a: &Args, total_execs
                             continue;
                         }
                     };
-                    match execute(ex, c, pos, names, &job.prefix, round_shared) {
+                    match execute_p(ex, c, pos, names, &job.prefix, round_shared, job.policy) {
                         Ok((rec, out)) => {
                             total_execs.fetch_add(1, Ordering::Relaxed);
                             if let Some(h) = &rec.hang {
@@ -238,7 +271,11 @@ fn explore_config(c: &Config, workers: usize, sink: &Sink, a: &Args, total_execs
                                     }
                                     let mut pf = rec.choices[..i].to_vec();
                                     pf.push(alt);
-                                    kids.push(Job { prefix: pf, pre_used: np, dev_used: nd });
+                                    // deviations are only explored from the index order and the reverse order
+                                    if matches!(job.policy, OrderPolicy::Rotate(_)) {
+                                        continue;
+                                    }
+                                    kids.push(Job { prefix: pf, pre_used: np, dev_used: nd, policy: job.policy });
                                 }
                             }
                             {
@@ -246,7 +283,7 @@ fn explore_config(c: &Config, workers: usize, sink: &Sink, a: &Args, total_execs
                                 r.executions += 1;
                                 r.choice_points_max = r.choice_points_max.max(rec.points.len());
                                 r.steps_total += rec.steps;
-                                r.outcomes.entry(outcome_key(&out)).or_insert_with(|| job.prefix.clone());
+                                r.outcomes.entry(outcome_key(&out)).or_insert_with(|| (job.prefix.clone(), job.policy));
                                 r.cache_digests.insert(rec.cache_digest);
                                 r.traces.insert(rec.trace_hash);
                                 r.conflicting_stores += rec.conflicting_stores;
@@ -277,7 +314,8 @@ fn explore_config(c: &Config, workers: usize, sink: &Sink, a: &Args, total_execs
         let before = shared.len();
         shared.extend(ns);
         res.shared_keys = shared.len();
-        if c.all_points || shared.len() == before {
+        if c.all_points || shared.len() == before || c.pre_bound == 0 {
+            // (with no preemptions allowed the classification of keys is never consulted)
             break;
         }
         if res.rounds >= 6 {
@@ -298,12 +336,12 @@ fn explore_config(c: &Config, workers: usize, sink: &Sink, a: &Args, total_execs
             seed: c.fen.into(),
             path: vec![],
             detail: format!("config {} depth {}: schedule {:?} gives [{}], schedule {:?} gives [{}] ({} distinct outcomes in {} schedules)", c.name, c.depth, s1, o1, s2, o2, res.outcomes.len(), res.executions),
-            extra: json!({"kind": "c09", "config": c.name, "schedule_a": s1, "schedule_b": s2}),
+            extra: json!({"kind": "c09", "config": c.name, "schedule_a": s1.0, "policy_a": policy_name(s1.1), "schedule_b": s2.0, "policy_b": policy_name(s2.1)}),
         });
     }
     for (o, s) in res.outcomes.iter() {
         if o.contains("Panic") {
-            sink.push(Violation { prop: "C09".into(), class: "panic-under-schedule".into(), seed: c.fen.into(), path: vec![], detail: format!("config {}: schedule {:?}: {}", c.name, s, o), extra: json!({"kind": "c09", "config": c.name, "schedule_a": s, "schedule_b": s}) });
+            sink.push(Violation { prop: "C09".into(), class: "panic-under-schedule".into(), seed: c.fen.into(), path: vec![], detail: format!("config {}: schedule {:?}: {}", c.name, s, o), extra: json!({"kind": "c09", "config": c.name, "schedule_a": s.0, "policy_a": policy_name(s.1), "schedule_b": s.0, "policy_b": policy_name(s.1)}) });
         }
     }
     Ok(res)
@@ -435,10 +473,11 @@ pub fn replay(v: &serde_json::Value) -> i32 {
         }
     }
     let mut outs = Vec::new();
-    for key in ["schedule_a", "schedule_b"] {
+    for (key, pkey) in [("schedule_a", "policy_a"), ("schedule_b", "policy_b")] {
         let s = sched(key);
-        let o1 = execute(&ex, c, &pos, &names, &s, &shared).map(|x| outcome_key(&x.1));
-        let o2 = execute(&ex, c, &pos, &names, &s, &shared).map(|x| outcome_key(&x.1));
+        let pol = policy_of(v["extra"][pkey].as_str().unwrap_or("first"));
+        let o1 = execute_p(&ex, c, &pos, &names, &s, &shared, pol).map(|x| outcome_key(&x.1));
+        let o2 = execute_p(&ex, c, &pos, &names, &s, &shared, pol).map(|x| outcome_key(&x.1));
         if o1 != o2 {
             eprintln!("MACHINERY-ERROR: replay of schedule {:?} is not deterministic: {:?} vs {:?}", s, o1, o2);
             return 2;
